@@ -10,7 +10,7 @@ theorem isSome_of_ne_none {α : Type} {o : Option α} (h : o.isNone = true) : o 
 /-- Every event the model accepts preserves the invariant, unless the (ghost) flag records that a
 failed build dropped pending discovered dependencies. -/
 theorem step_inv {P : Program} (hP : P.WF) {s s' : St} {e : Event}
-    (h : step P s e = some s') (hi : Inv P s) (hd : s'.pendingDropped = false) : Inv P s' := by
+    (h : step P s e = some s') (hi : Inv P s) (hc : InvC P s) (hd : s'.pendingDropped = false) : Inv P s' := by
   cases e with
   | buildStart k =>
     simp only [step] at h
@@ -38,7 +38,16 @@ theorem step_inv {P : Program} (hP : P.WF) {s s' : St} {e : Event}
     · cases h; exact hi
     · cases h
   | dbBegin => simp only [step] at h; cases h; exact hi
-  | dbEnd => simp only [step] at h; cases h; exact hi
+  | dbEnd =>
+    simp only [step] at h
+    split at h
+    · cases h; exact Inv.congr (s := s) rfl rfl rfl rfl rfl rfl rfl rfl rfl rfl rfl hi
+    · cases h
+  | crash =>
+    simp only [step] at h
+    split at h
+    · cases h; exact Inv.congr (s := crashState s) rfl rfl rfl rfl rfl rfl rfl rfl rfl rfl rfl hc
+    · cases h
   | scanning k =>
     simp only [step] at h
     split at h
@@ -315,5 +324,62 @@ theorem step_inv {P : Program} (hP : P.WF) {s s' : St} {e : Event}
     split at h
     · cases h; exact Inv.init P
     · cases h
+
+
+/-- the committed snapshot stays a good place to restart from -/
+theorem step_invC {P : Program} (hP : P.WF) {s s' : St} {e : Event}
+    (h : step P s e = some s') (hi : Inv P s) (hc : InvC P s) (hd : s'.pendingDropped = false) : InvC P s' := by
+  cases e <;> simp only [step] at h
+  case mutate slot val =>
+    split at h
+    · cases h
+      exact Inv.mutate (s := crashState s) rfl rfl rfl rfl rfl rfl rfl rfl rfl rfl rfl hc
+    · cases h
+  case dbEnd =>
+    split at h
+    · rename_i hg
+      cases h
+      simp only [Bool.or_eq_false_iff, Bool.not_eq_eq_eq_not, Bool.not_false] at hd
+      have hpe : s.pending = [] := by simpa using hd.2
+      have hit : s.dbIter = s.epoch := by
+        simp only [Bool.or_eq_true, Bool.not_eq_eq_eq_not, Bool.not_true, beq_iff_eq] at hg
+        rcases hg with h | h
+        · exact hi.iterEq (Or.inr h)
+        · exact h
+      exact Inv.commit (s := s) rfl rfl rfl rfl rfl rfl rfl rfl rfl hit hpe hi
+    · cases h
+  case wipe =>
+    split at h
+    · cases h; exact Inv.init P
+    · cases h
+  case ret v =>
+    split at h
+    · cases h
+    · split at h
+      · cases h
+      · split at h
+        · cases h; exact hc
+        · split at h
+          · cases h; exact hc
+          · cases h
+  case provide k id key v reqs =>
+    split at h
+    · split at h
+      · cases h
+      · split at h
+        · cases h; exact hc
+        · cases h
+    · cases h
+  case cycle ks =>
+    split at h
+    · split at h
+      · cases h; exact hc
+      · cases h
+    · cases h
+  all_goals first
+    | (cases h; exact hc)
+    | (split at h
+       · cases h; exact hc
+       · cases h)
 
 end LLBuild.Engine
